@@ -386,4 +386,605 @@ theorem C01_chain_base {A : Ind F} (SA : TreeComp A) (hclosed : SA.ReadsWithin A
       Hb.managers = H.managers :=
   C01_chain SA hclosed d nameB round hB main hin hneB hfresh (MgrSpec.base F) none init chunks hp H hlive
 
+/-- on the base timeframe, a history of appends only (no explicit `calculate()` after construction) is
+the history "construct over `init ++ first chunk`, `calculate()`, append the rest" -/
+theorem appendsOnly_eq (A B : Ind F) (hne : A.name ≠ B.name) (tfn : Option String) (init ch : List (Candle F))
+    (rest : List (List (Candle F))) :
+    runHexital {} tfn init [plainMember A, plainMember B] ((ch :: rest).map TwinOp.append)
+      = pairRun A B {} tfn (init ++ ch) rest := by
+  unfold pairRun runHexital
+  rw [init_pair A B hne, init_pair A B hne, tasks_default, tasks_default]
+  simp only [bind, Except.bind, pure, Except.pure, List.map_cons, List.foldlM_cons, TwinOp.runHex]
+  have happ : (pairHx A B {} tfn {} init 0 0).append ch = (pairHx A B {} tfn {} (init ++ ch) 0 0).calculate none := by
+    unfold Hexital.append
+    rw [feed_pair]
+    unfold Manager.append
+    by_cases he : ch.isEmpty = true
+    · have : ch = [] := by cases ch <;> simp at he ⊢
+      subst this
+      simp [bind, Except.bind, pure, Except.pure]
+    · simp only [he, Bool.false_eq_true, if_false, tasks_default, bind, Except.bind, pure, Except.pure]
+  rw [happ]
+
+/-- **C01 for the pair, base timeframe, appends only** – literally "`Hexital.init {} none init [A, B]`
+followed by any non-empty sequence of `append chunk`": if that history returns, the batch Hexital over
+`init ++ chunks.flatten` (construct, `calculate()`) returns with the same managers. -/
+theorem C01_chain_base_appends {A : Ind F} (SA : TreeComp A) (hclosed : SA.ReadsWithin A.allNames)
+    {inp : String} {k : Kind F} (d : DepKind (F := F) inp k) (nameB : String) (round : Nat)
+    (hB : IsKey nameB) (main : String) (hin : InputOf main inp) (hneB : nameB ≠ main)
+    (hfresh : nameB ∉ A.allNames)
+    (init : List (Candle F)) (chunks : List (List (Candle F))) (hne : chunks ≠ [])
+    (hp : ∀ c ∈ init ++ chunks.flatten, Plain c) (H : Hexital F)
+    (hlive : runHexital {} none init [plainMember A, plainMember (mkTop k nameB round)] (chunks.map TwinOp.append)
+      = .ok H) :
+    ∃ Hb, pairRun A (mkTop k nameB round) {} none (init ++ chunks.flatten) [] = .ok Hb ∧
+      Hb.managers = H.managers := by
+  cases chunks with
+  | nil => exact absurd rfl hne
+  | cons ch rest =>
+    have hAB : A.name ≠ (mkTop k nameB round).name := by
+      rw [mkTop_name]
+      exact fun e => hfresh (e ▸ A.name_mem_names)
+    rw [appendsOnly_eq A _ hAB] at hlive
+    have hp' : ∀ c ∈ (init ++ ch) ++ rest.flatten, Plain c := by
+      simpa [List.append_assoc] using hp
+    obtain ⟨Hb, hb, hm⟩ := C01_chain_base SA hclosed d nameB round hB main hin hneB hfresh (init ++ ch) rest hp' H hlive
+    refine ⟨Hb, ?_, hm⟩
+    simpa [List.append_assoc] using hb
+
+/-- **C01 for the standard usage pattern, all covered sources, any timeframe, gap filling off or on.**
+Source `A = mkTop kA nameA roundA` with `ChainSource nameA kA` (SMA / EMA / RMA / WMA / ROC over a candle
+attribute, MACD, KC, Supertrend, BBANDS, STOCH, TSI, ADX); dependent `B = mkTop kB nameB roundB`, an SMA /
+EMA / RMA / WMA / ROC whose `input_value` addresses the entry under `main` (e.g. `main = nameA`: `A`'s
+name, or `nameA.field`).  Both members without own timeframe on a Hexital with timeframe `tf` (`tfn` its
+spelling).  If the live history returns, so does the batch Hexital, with the same managers. -/
+theorem C01_chain_covered (tf : Option Int) (htf : ∀ t, tf = some t → 0 < t) (fill : Bool)
+    {nameA : String} {kA : Kind F} (hA : ChainSource nameA kA) (roundA : Nat)
+    {inp : String} {kB : Kind F} (d : DepKind (F := F) inp kB) (nameB : String) (roundB : Nat)
+    (hB : IsKey nameB) (main : String) (hin : InputOf main inp) (hneB : nameB ≠ main)
+    (hfresh : nameB ∉ (mkTop kA nameA roundA).allNames) (tfn : Option String)
+    (init : List (Candle F)) (chunks : List (List (Candle F))) (hraw : RawTf (init ++ chunks.flatten))
+    (H : Hexital F)
+    (hlive : pairRun (mkTop kA nameA roundA) (mkTop kB nameB roundB) { tf := tf, fill := fill && tf.isSome }
+      tfn init chunks = .ok H) :
+    ∃ Hb, pairRun (mkTop kA nameA roundA) (mkTop kB nameB roundB) { tf := tf, fill := fill && tf.isSome }
+        tfn (init ++ chunks.flatten) [] = .ok Hb ∧ Hb.managers = H.managers := by
+  obtain ⟨SA, hclosed⟩ := hA.comp roundA
+  have hcfg := mgrSpecOf_cfg (F := F) tf htf fill
+  rw [← hcfg] at hlive ⊢
+  exact C01_chain SA hclosed d nameB roundB hB main hin hneB hfresh (mgrSpecOf F tf htf fill) tfn init chunks
+    (mgrSpecOf_ok tf htf fill _ hraw) H hlive
+
+/-! ### chains of any length on the default manager -/
+
+/-- the registrations of a member list on the default manager -/
+def regsOf (ts : List (Ind F)) : List (String × (Ind F × String)) := ts.map fun t => (t.name, (t, defaultKey))
+
+/-- a Hexital whose members are the trees `ts` (in this order), all on the one default manager,
+which holds `cs` -/
+structure ChainInv (ts : List (Ind F)) (cfg : MgrCfg) (H : Hexital F) (cs : List (Candle F)) : Prop where
+  mgrs : H.managers = [(defaultKey, { cfg := cfg, candles := cs })]
+  inds : H.indicators.map regInfo = regsOf ts
+
+theorem lookup_reg {ts : List (Ind F)} {cfg : MgrCfg} {H : Hexital F} {cs : List (Candle F)}
+    (inv : ChainInv ts cfg H cs) (t : Ind F) (hl : dlookup t.name (regsOf ts) = some (t, defaultKey)) :
+    ∃ hi, dlookup t.name H.indicators = some hi ∧ hi.tree = t ∧ hi.mgrKey = defaultKey := by
+  have := Writes.dlookup_of_map_eq (fun x : HxInd F => (x.tree, x.mgrKey)) H.indicators
+    (ts.map fun t => (t.name, ({ tree := t, mgrKey := defaultKey } : HxInd F))) (by
+      have := inv.inds
+      unfold regInfo regsOf at this
+      simp only [List.map_map, Function.comp_def]
+      exact this.symm) t.name
+  have h2 : (dlookup t.name (ts.map fun t => (t.name, ({ tree := t, mgrKey := defaultKey } : HxInd F)))).map
+      (fun x : HxInd F => (x.tree, x.mgrKey)) = some (t, defaultKey) := by
+    rw [← hl]
+    unfold regsOf
+    clear this hl inv
+    induction ts with
+    | nil => rfl
+    | cons u r ih =>
+      simp only [List.map_cons, dlookup]
+      by_cases hu : u.name = t.name
+      · simp [hu]
+      · simp only [hu, if_false]; exact ih
+  rw [h2] at this
+  cases hq : dlookup t.name H.indicators with
+  | none => rw [hq] at this; simp at this
+  | some hi =>
+    rw [hq] at this
+    simp only [Option.map_some, Option.some.injEq, Prod.mk.injEq] at this
+    exact ⟨hi, rfl, this.1.symm, this.2.symm⟩
+
+/-- the Hexital after a step of the member `n` (registered as `hi`) that ended in `s` -/
+def chainUpd (H : Hexital F) (n : String) (hi : HxInd F) (s : IndState F) : Hexital F :=
+  { H with managers := [(defaultKey, s.mgr)], indicators := dset n { hi with active := s.active } H.indicators }
+
+/-- `calculate()` of one registered member of a chain Hexital -/
+theorem withInd_chain {ts : List (Ind F)} {cfg : MgrCfg} {H : Hexital F} {cs : List (Candle F)}
+    (inv : ChainInv ts cfg H cs) (t : Ind F) (hl : dlookup t.name (regsOf ts) = some (t, defaultKey)) :
+    (∀ H', H.withInd t.name IndState.calculate = .ok H' →
+      ∃ cs', ChainInv ts cfg H' cs' ∧ engineCalc t cs = .ok cs') ∧
+    (∀ cs', engineCalc t cs = .ok cs' →
+      ∃ H', H.withInd t.name IndState.calculate = .ok H' ∧ ChainInv ts cfg H' cs') := by
+  obtain ⟨hi, hlk, ht, hk⟩ := lookup_reg inv t hl
+  have hw : H.withInd t.name IndState.calculate = (do
+      let s ← IndState.calculate { tree := t, mgr := { cfg := cfg, candles := cs }, active := hi.active }
+      pure (chainUpd H t.name hi s)) := by
+    unfold Hexital.withInd chainUpd
+    rw [hlk]
+    simp only [Hexital.manager, hk, inv.mgrs, dlookup, if_true, Hexital.setManager, dset, ht, bind, Except.bind,
+      pure, Except.pure]
+  have hinv : ∀ s : IndState F, s.mgr.cfg = cfg →
+      ChainInv ts cfg (chainUpd H t.name hi s) s.mgr.candles := by
+    intro s hc
+    refine ⟨?_, ?_⟩
+    · show [(defaultKey, s.mgr)] = _
+      obtain ⟨tr, ⟨c, k⟩, a⟩ := s
+      simp only at hc ⊢
+      rw [hc]
+    · show (dset t.name _ H.indicators).map regInfo = _
+      rw [Writes.map_dset_of_lookup regInfo _ hlk (by rfl)]
+      exact inv.inds
+  constructor
+  · intro H' h
+    rw [hw] at h
+    obtain ⟨s, hs, h⟩ := Writes.bind_ok h
+    cases h
+    obtain ⟨_, hc, he⟩ := IndState.calculate_ok_engine _ s hs
+    exact ⟨s.mgr.candles, hinv s hc, he⟩
+  · intro cs' he
+    obtain ⟨s, hs, hcs⟩ := IndState.calculate_of_engine
+      ({ tree := t, mgr := { cfg := cfg, candles := cs }, active := hi.active } : IndState F) cs' he
+    obtain ⟨_, hc⟩ := IndState.calculate_ok_frame _ s hs
+    refine ⟨_, by rw [hw, hs]; rfl, ?_⟩
+    have := hinv s hc
+    rwa [hcs] at this
+
+theorem lookup_regsOf_nodup (ts : List (Ind F)) (hnd : (ts.map (·.name)).Nodup) :
+    ∀ t ∈ ts, dlookup t.name (regsOf ts) = some (t, defaultKey) := by
+  induction ts with
+  | nil => intro t ht; cases ht
+  | cons u r ih =>
+    intro t ht
+    have hnd' : u.name ∉ r.map (·.name) ∧ (r.map (·.name)).Nodup := by
+      rw [List.map_cons] at hnd
+      exact List.nodup_cons.1 hnd
+    unfold regsOf
+    simp only [List.map_cons, dlookup]
+    rcases List.mem_cons.1 ht with rfl | ht
+    · simp
+    · have hne : u.name ≠ t.name := fun e => hnd'.1 (e ▸ List.mem_map.2 ⟨t, ht, rfl⟩)
+      simp only [hne, if_false]
+      exact ih hnd'.2 t ht
+
+/-- `calculate()` of the members `us` (registered, in any order) one after the other -/
+theorem foldInd_chain {ts : List (Ind F)} {cfg : MgrCfg} (us : List (Ind F)) :
+    (∀ u ∈ us, dlookup u.name (regsOf ts) = some (u, defaultKey)) →
+    ∀ (H : Hexital F) (cs : List (Candle F)), ChainInv ts cfg H cs →
+      (∀ H', (us.map (·.name)).foldlM (fun (h : Hexital F) n => h.withInd n IndState.calculate) H = .ok H' →
+        ∃ cs', ChainInv ts cfg H' cs' ∧ chainEngine us cs = .ok cs') ∧
+      (∀ cs', chainEngine us cs = .ok cs' →
+        ∃ H', (us.map (·.name)).foldlM (fun (h : Hexital F) n => h.withInd n IndState.calculate) H = .ok H' ∧
+          ChainInv ts cfg H' cs') := by
+  induction us with
+  | nil =>
+    intro _ H cs inv
+    constructor
+    · intro H' h
+      simp only [List.map_nil, List.foldlM_nil, pure, Except.pure] at h
+      cases h
+      exact ⟨cs, inv, rfl⟩
+    · intro cs' h
+      simp only [chainEngine, List.foldlM_nil, pure, Except.pure] at h
+      cases h
+      exact ⟨H, rfl, inv⟩
+  | cons u r ih =>
+    intro hus H cs inv
+    have hu := hus u (by simp)
+    have hr : ∀ v ∈ r, dlookup v.name (regsOf ts) = some (v, defaultKey) := fun v hv => hus v (by simp [hv])
+    obtain ⟨w1, w2⟩ := withInd_chain inv u hu
+    constructor
+    · intro H' h
+      rw [List.map_cons, List.foldlM_cons] at h
+      obtain ⟨H1, h1, h2⟩ := Writes.bind_ok h
+      obtain ⟨cs₁, inv1, he⟩ := w1 H1 h1
+      obtain ⟨cs', inv', hc⟩ := (ih hr H1 cs₁ inv1).1 H' h2
+      refine ⟨cs', inv', ?_⟩
+      rw [chainEngine_cons]
+      show (do let c ← engineCalc u cs; chainEngine r c) = _
+      rw [he]
+      exact hc
+    · intro cs' h
+      rw [chainEngine_cons] at h
+      change (do let c ← engineCalc u cs; chainEngine r c) = _ at h
+      obtain ⟨cs₁, he, hc⟩ := Writes.bind_ok h
+      obtain ⟨H1, h1, inv1⟩ := w2 cs₁ he
+      obtain ⟨H', h2, inv'⟩ := (ih hr H1 cs₁ inv1).2 cs' hc
+      refine ⟨H', ?_, inv'⟩
+      rw [List.map_cons, List.foldlM_cons, h1]
+      exact h2
+
+theorem ChainInv.keys {ts : List (Ind F)} {cfg : MgrCfg} {H : Hexital F} {cs : List (Candle F)}
+    (inv : ChainInv ts cfg H cs) : H.indicators.map (·.1) = ts.map (·.name) := by
+  have := congrArg (List.map (·.1)) inv.inds
+  simpa [List.map_map, Function.comp_def, regInfo, regsOf] using this
+
+/-- `Hexital.calculate()` of a chain Hexital is the chain engine on the default manager's candles -/
+theorem calculate_chain {ts : List (Ind F)} {cfg : MgrCfg} (hnd : (ts.map (·.name)).Nodup) {H : Hexital F}
+    {cs : List (Candle F)} (inv : ChainInv ts cfg H cs) :
+    (∀ H', H.calculate none = .ok H' → ∃ cs', ChainInv ts cfg H' cs' ∧ chainEngine ts cs = .ok cs') ∧
+    (∀ cs', chainEngine ts cs = .ok cs' → ∃ H', H.calculate none = .ok H' ∧ ChainInv ts cfg H' cs') := by
+  have hc : H.calculate none
+      = (ts.map (·.name)).foldlM (fun (h : Hexital F) n => h.withInd n IndState.calculate) H := by
+    unfold Hexital.calculate Hexital.forEach
+    rw [inv.keys]
+    simp only [Option.isNone_none, Bool.true_or, if_true]
+  rw [hc]
+  exact foldInd_chain ts (lookup_regsOf_nodup ts hnd) H cs inv
+
+/-! #### construction -/
+
+theorem dset_fresh {α : Type} (k : String) (v : α) (l : List (String × α)) (hk : k ∉ l.map (·.1)) :
+    dset k v l = l ++ [(k, v)] := by
+  induction l with
+  | nil => rfl
+  | cons p r ih =>
+    obtain ⟨k', w⟩ := p
+    have hne : k' ≠ k := fun e => hk (by simp [e])
+    have hk' : k ∉ r.map (·.1) := fun hm => hk (by simp [hm])
+    rw [Writes.dset_cons_ne hne]
+    simp only [List.cons_append, ih hk']
+
+theorem foldl_dset_fresh {α β : Type} (key : β → String) (g : β → α) :
+    ∀ (ms : List β) (acc : List (String × α)), (ms.map key).Nodup → (∀ m ∈ ms, key m ∉ acc.map (·.1)) →
+      ms.foldl (fun acc m => dset (key m) (g m) acc) acc = acc ++ ms.map (fun m => (key m, g m)) := by
+  intro ms
+  induction ms with
+  | nil => intro acc _ _; simp
+  | cons m r ih =>
+    intro acc hnd hfr
+    rw [List.map_cons] at hnd
+    have hnd' := List.nodup_cons.1 hnd
+    rw [List.foldl_cons, dset_fresh _ _ _ (hfr m (by simp)), ih _ hnd'.2]
+    · simp
+    · intro x hx hm
+      simp only [List.map_append, List.map_cons, List.map_nil, List.mem_append, List.mem_singleton] at hm
+      rcases hm with hm | hm
+      · exact hfr x (by simp [hx]) hm
+      · exact hnd'.1 (hm ▸ List.mem_map.2 ⟨x, hx, rfl⟩)
+
+/-- the freshly constructed chain Hexital over the default manager's candles `dm` -/
+def initHx (ts : List (Ind F)) (cfg : MgrCfg) (tfn : Option String) (dm : List (Candle F)) : Hexital F :=
+  { cfg := cfg, tfName := tfn, managers := [(defaultKey, { cfg := cfg, candles := dm })],
+    indicators := ts.map fun t => (t.name, { tree := t, mgrKey := defaultKey }) }
+
+theorem initHx_inv (ts : List (Ind F)) (cfg : MgrCfg) (tfn : Option String) (dm : List (Candle F)) :
+    ChainInv ts cfg (initHx ts cfg tfn dm) dm :=
+  ⟨rfl, by simp [initHx, regInfo, regsOf, List.map_map, Function.comp_def]⟩
+
+/-- registering plain members one after the other -/
+def regFold (ms : List (Ind F)) (acc : List (String × HxInd F)) : List (String × HxInd F) :=
+  ms.foldl (fun acc t => dset t.name { tree := t, mgrKey := defaultKey } acc) acc
+
+theorem attach_plain_fold (ms : List (Ind F)) :
+    ∀ (h : Hexital F), (ms.map plainMember).foldlM Hexital.attach h
+      = .ok { h with indicators := regFold ms h.indicators } := by
+  induction ms with
+  | nil => intro h; rfl
+  | cons t r ih =>
+    intro h
+    rw [List.map_cons, List.foldlM_cons]
+    have : Hexital.attach h (plainMember t)
+        = .ok { h with indicators := dset t.name { tree := t, mgrKey := defaultKey } h.indicators } := rfl
+    rw [this]
+    simp only [bind, Except.bind]
+    rw [ih]
+    rfl
+
+theorem init_chain (ts : List (Ind F)) (hnd : (ts.map (·.name)).Nodup) (cfg : MgrCfg) (tfn : Option String)
+    (cs : List (Candle F)) :
+    Hexital.init cfg tfn cs (ts.map plainMember) = (do
+      let dm ← tasks cfg cs
+      pure (initHx ts cfg tfn dm)) := by
+  unfold Hexital.init Manager.init
+  have hd : Hexital.dedupe (ts.map plainMember) = ts.map plainMember := by
+    unfold Hexital.dedupe
+    have := foldl_dset_fresh (fun m : Member F => m.tree.name) (fun m => m) (ts.map plainMember) []
+      (by simpa [List.map_map, Function.comp_def, plainMember] using hnd) (by simp)
+    rw [this]
+    simp [List.map_map, Function.comp_def]
+  rw [hd]
+  cases tasks cfg cs with
+  | error e => rfl
+  | ok dm =>
+    simp only [bind, Except.bind, pure, Except.pure]
+    rw [attach_plain_fold]
+    have := foldl_dset_fresh (fun t : Ind F => t.name) (fun t => ({ tree := t, mgrKey := defaultKey } : HxInd F))
+      ts [] hnd (by simp)
+    unfold regFold
+    simp only [this, List.nil_append]
+    rfl
+
+/-! #### appends -/
+
+theorem feed_chain {ts : List (Ind F)} {cfg : MgrCfg} {H : Hexital F} {cs : List (Candle F)}
+    (inv : ChainInv ts cfg H cs) (new : List (Candle F)) :
+    H.feedManagers new = (do
+      let m ← Manager.append { cfg := cfg, candles := cs } new
+      pure { H with managers := [(defaultKey, m)] }) := by
+  unfold Hexital.feedManagers Hexital.feedOrder
+  simp only [inv.mgrs, List.map_cons, List.map_nil, List.drop_succ_cons, List.drop_zero, List.take_succ_cons,
+    List.take_zero, List.nil_append, List.foldlM_cons, List.foldlM_nil, Hexital.feedOne, Hexital.manager, dlookup,
+    if_true, Hexital.setManager, dset, bind, Except.bind, pure, Except.pure]
+  cases Manager.append ({ cfg := cfg, candles := cs } : Manager F) new <;> rfl
+
+theorem append_chain {ts : List (Ind F)} {cfg : MgrCfg} (hnd : (ts.map (·.name)).Nodup) {H : Hexital F}
+    {cs : List (Candle F)} (inv : ChainInv ts cfg H cs) (new : List (Candle F)) :
+    (∀ H', H.append new = .ok H' →
+      ∃ cs', ChainInv ts cfg H' cs' ∧ engAppend cfg (chainEngine ts) cs new = .ok cs') ∧
+    (∀ cs', engAppend cfg (chainEngine ts) cs new = .ok cs' →
+      ∃ H', H.append new = .ok H' ∧ ChainInv ts cfg H' cs') := by
+  have key : ∀ m : Manager F, Manager.append { cfg := cfg, candles := cs } new = .ok m →
+      ChainInv ts cfg ({ H with managers := [(defaultKey, m)] } : Hexital F) m.candles := by
+    intro m hm
+    have hc := Manager.append_cfg _ m new hm
+    simp only at hc
+    refine ⟨?_, inv.inds⟩
+    show [(defaultKey, m)] = _
+    obtain ⟨c, k⟩ := m
+    simp only at hc ⊢
+    rw [hc]
+  constructor
+  · intro H' h
+    unfold Hexital.append at h
+    rw [feed_chain inv] at h
+    obtain ⟨H1, h1, h2⟩ := Writes.bind_ok h
+    obtain ⟨m, hm, h1⟩ := Writes.bind_ok h1
+    cases h1
+    obtain ⟨cs', inv', he⟩ := (calculate_chain hnd (key m hm)).1 H' h2
+    refine ⟨cs', inv', ?_⟩
+    unfold engAppend
+    rw [hm]
+    exact he
+  · intro cs' h
+    unfold engAppend at h
+    obtain ⟨m, hm, he⟩ := Writes.bind_ok h
+    obtain ⟨H', hc, inv'⟩ := (calculate_chain hnd (key m hm)).2 cs' he
+    refine ⟨H', ?_, inv'⟩
+    unfold Hexital.append
+    rw [feed_chain inv, hm]
+    exact hc
+
+theorem appends_chain {ts : List (Ind F)} {cfg : MgrCfg} (hnd : (ts.map (·.name)).Nodup)
+    (chunks : List (List (Candle F))) :
+    ∀ (H : Hexital F) (cs : List (Candle F)), ChainInv ts cfg H cs →
+      (∀ H', chunks.foldlM (fun (h : Hexital F) ch => h.append ch) H = .ok H' →
+        ∃ cs', ChainInv ts cfg H' cs' ∧ chunks.foldlM (engAppend cfg (chainEngine ts)) cs = .ok cs') ∧
+      (∀ cs', chunks.foldlM (engAppend cfg (chainEngine ts)) cs = .ok cs' →
+        ∃ H', chunks.foldlM (fun (h : Hexital F) ch => h.append ch) H = .ok H' ∧ ChainInv ts cfg H' cs') := by
+  induction chunks with
+  | nil =>
+    intro H cs inv
+    constructor
+    · intro H' h
+      simp only [List.foldlM_nil, pure, Except.pure] at h
+      cases h
+      exact ⟨cs, inv, rfl⟩
+    · intro cs' h
+      simp only [List.foldlM_nil, pure, Except.pure] at h
+      cases h
+      exact ⟨H, rfl, inv⟩
+  | cons ch rest ih =>
+    intro H cs inv
+    obtain ⟨a1, a2⟩ := append_chain hnd inv ch
+    constructor
+    · intro H' h
+      rw [List.foldlM_cons] at h
+      obtain ⟨H1, h1, h2⟩ := Writes.bind_ok h
+      obtain ⟨cs₁, inv1, he⟩ := a1 H1 h1
+      obtain ⟨cs', inv', hf⟩ := (ih H1 cs₁ inv1).1 H' h2
+      refine ⟨cs', inv', ?_⟩
+      rw [List.foldlM_cons, he]
+      exact hf
+    · intro cs' h
+      rw [List.foldlM_cons] at h
+      obtain ⟨cs₁, he, hf⟩ := Writes.bind_ok h
+      obtain ⟨H1, h1, inv1⟩ := a2 cs₁ he
+      obtain ⟨H', h2, inv'⟩ := (ih H1 cs₁ inv1).2 cs' hf
+      refine ⟨H', ?_, inv'⟩
+      rw [List.foldlM_cons, h1]
+      exact h2
+
+/-! #### the whole history of a chain -/
+
+/-- the live history of a chain Hexital: construct over `init` with the members `ts` (none with an own
+timeframe), `calculate()`, then `append` every chunk -/
+def chainRun (ts : List (Ind F)) (cfg : MgrCfg) (tfn : Option String) (init : List (Candle F))
+    (chunks : List (List (Candle F))) : PyM (Hexital F) :=
+  runHexital cfg tfn init (ts.map plainMember) (.calculate none :: chunks.map .append)
+
+theorem chainRun_ok {ts : List (Ind F)} (hnd : (ts.map (·.name)).Nodup) (cfg : MgrCfg) (tfn : Option String)
+    (init : List (Candle F)) (chunks : List (List (Candle F))) (H : Hexital F)
+    (h : chainRun ts cfg tfn init chunks = .ok H) :
+    ∃ cs, ChainInv ts cfg H cs ∧ engRun cfg (chainEngine ts) init chunks = .ok cs := by
+  unfold chainRun runHexital at h
+  rw [init_chain ts hnd] at h
+  obtain ⟨H0, h0, h⟩ := Writes.bind_ok h
+  obtain ⟨dm, hdm, h0⟩ := Writes.bind_ok h0
+  cases h0
+  rw [List.foldlM_cons] at h
+  obtain ⟨H1, h1, h⟩ := Writes.bind_ok h
+  obtain ⟨cs₁, inv1, he⟩ := (calculate_chain hnd (initHx_inv ts cfg tfn dm)).1 H1 h1
+  rw [foldlM_map_append] at h
+  obtain ⟨cs', inv', hf⟩ := (appends_chain hnd chunks H1 cs₁ inv1).1 H h
+  refine ⟨cs', inv', ?_⟩
+  unfold engRun Manager.init
+  rw [hdm]
+  simp only [bind, Except.bind, pure, Except.pure]
+  rw [he]
+  exact hf
+
+theorem chainRun_of {ts : List (Ind F)} (hnd : (ts.map (·.name)).Nodup) (cfg : MgrCfg) (tfn : Option String)
+    (init : List (Candle F)) (chunks : List (List (Candle F))) (cs : List (Candle F))
+    (h : engRun cfg (chainEngine ts) init chunks = .ok cs) :
+    ∃ H, chainRun ts cfg tfn init chunks = .ok H ∧ ChainInv ts cfg H cs := by
+  unfold engRun Manager.init at h
+  obtain ⟨m, hm, h⟩ := Writes.bind_ok h
+  obtain ⟨dm, hdm, hm⟩ := Writes.bind_ok hm
+  cases hm
+  obtain ⟨cs₁, h1, h⟩ := Writes.bind_ok h
+  obtain ⟨H1, hc, inv1⟩ := (calculate_chain hnd (initHx_inv ts cfg tfn dm)).2 cs₁ h1
+  obtain ⟨H', hf, inv'⟩ := (appends_chain hnd chunks H1 cs₁ inv1).2 cs h
+  refine ⟨H', ?_, inv'⟩
+  unfold chainRun runHexital
+  rw [init_chain ts hnd, hdm]
+  simp only [bind, Except.bind, pure, Except.pure]
+  rw [List.foldlM_cons]
+  show (do let s' ← (initHx ts cfg tfn dm).calculate none; _) = _
+  rw [hc]
+  simp only [bind, Except.bind]
+  rw [foldlM_map_append]
+  exact hf
+
+/-- the member names of a chain are distinct -/
+theorem ChainComps.nodup : ∀ {pre : List String} {ts : List (Ind F)}, ChainComps pre ts →
+    (ts.map (·.name)).Nodup
+  | _, _, .single _ t _ _ => by simp
+  | _, _, .cons pre t t' r _ _ hdis rest => by
+    rw [List.map_cons]
+    refine List.nodup_cons.2 ⟨?_, rest.nodup⟩
+    intro hm
+    obtain ⟨u, hu, hn⟩ := List.mem_map.1 hm
+    refine hdis t.name (List.mem_append_right _ t.name_mem_names) ?_
+    unfold namesOf
+    rw [List.mem_flatMap]
+    exact ⟨u, hu, hn ▸ u.name_mem_names⟩
+
+/-- **C01 for a chain of any length** on one manager (base timeframe, timeframe, timeframe + fill):
+members `ts` in registration order, each given as a lawful component that reads only under the names of
+EARLIER members and its own (so any member may take an earlier member's output as `input_value`), pairwise
+disjoint names.  Whenever the live history returns, the batch Hexital over the whole stream returns with
+the same managers and registrations, and the default manager's candles are the row-major run of the
+chain's spec over the manager spec of the stream. -/
+theorem chain_live_eq_batch {ts : List (Ind F)} (c : ChainComps [] ts) (M : MgrSpec F) (tfn : Option String)
+    (init : List (Candle F)) (chunks : List (List (Candle F))) (hok : M.Ok (init ++ chunks.flatten))
+    (H : Hexital F) (hlive : chainRun ts M.cfg tfn init chunks = .ok H) :
+    ∃ Hb cs, chainRun ts M.cfg tfn (init ++ chunks.flatten) [] = .ok Hb ∧
+      Hb.managers = H.managers ∧ Hb.indicators.map regInfo = H.indicators.map regInfo ∧
+      H.managers = [(defaultKey, { cfg := M.cfg, candles := cs })] ∧
+      Gen.rowMajor (chainSpec c).S (M.spec (init ++ chunks.flatten)) = .ok cs := by
+  obtain ⟨cs, inv, he⟩ := chainRun_ok c.nodup M.cfg tfn init chunks H hlive
+  have hrow := (chainSpec c).live_refines M init chunks hok cs he
+  have hb := (chainSpec c).live_eq_batch M init chunks hok cs he
+  obtain ⟨Hb, hB, invb⟩ := chainRun_of c.nodup M.cfg tfn (init ++ chunks.flatten) [] cs hb
+  exact ⟨Hb, cs, hB, invb.mgrs.trans inv.mgrs.symm, invb.inds.trans inv.inds.symm, inv.mgrs, hrow⟩
+
 end Hex.Chain
+
+
+/-! ### non-vacuity (over `Int`, the 4-candle demo of HexProps/C01.lean) -/
+namespace Hex.Chain.Demo
+open Hex Hex.Chain
+
+def demo : List (Candle Int) :=
+  [ { o := .int 1, h := .int 3, l := .int 1, c := .int 2, v := .int 10, ts := some 60 },
+    { o := .int 2, h := .int 5, l := .int 2, c := .int 4, v := .int 20, ts := some 120 },
+    { o := .int 4, h := .int 4, l := .int 0, c := .int 1, v := .int 5, ts := some 180 },
+    { o := .int 1, h := .int 7, l := .int 1, c := .int 6, v := .int 8, ts := some 240 } ]
+
+/-- source: `SMA(period=2)` over `close`; dependent: `EMA(period=2, input_value="SMA_2")` -/
+def srcSMA : Ind Int := mkTop (.sma 2 "close") "SMA_2" 4
+def depEMA : Ind Int := mkTop (.ema 2 "SMA_2" (.int 2)) "EMA_2" 4
+
+/-- the hypotheses of `C01_chain_base` hold for this pair … -/
+example (init : List (Candle Int)) (chunks : List (List (Candle Int)))
+    (hp : ∀ c ∈ init ++ chunks.flatten, Plain c) (H : Hexital Int)
+    (hlive : pairRun srcSMA depEMA {} none init chunks = .ok H) :
+    ∃ Hb, pairRun srcSMA depEMA {} none (init ++ chunks.flatten) [] = .ok Hb ∧ Hb.managers = H.managers :=
+  C01_chain_base (srcLeaf (.sma 2 (by decide)) "SMA_2" 4 (by decide) (by decide))
+    (srcLeaf_reads _ _ _ _ _) (.ema 2 (.int 2) (by decide)) "EMA_2" 4 (by decide) "SMA_2"
+    (Or.inl ⟨rfl, by decide⟩) (by decide) (by decide) init chunks hp H hlive
+
+/-- what is stored under a top-level key, per candle: is there an entry, is it non-`None` -/
+def column (k : String) (r : PyM (Hexital Int)) : Option (List (Bool × Bool)) :=
+  match defaultCandles r with
+  | .ok cs => some (cs.map fun c => ((dlookup k c.inds).isSome, ((dlookup k c.inds).map (fun v => !v.isNone)).getD false))
+  | .error _ => none
+
+/-- … the live run (empty start, one candle, an empty chunk, the rest) returns; `SMA_2` has its first
+reading at index 1 and the dependent `EMA_2` – whose input begins there – at index 2 -/
+example : column "SMA_2" (pairRun srcSMA depEMA {} none [] [demo.take 1, [], demo.drop 1])
+    = some [(true, false), (true, true), (true, true), (true, true)] := by decide +kernel
+example : column "EMA_2" (pairRun srcSMA depEMA {} none [] [demo.take 1, [], demo.drop 1])
+    = some [(true, false), (true, false), (true, true), (true, true)] := by decide +kernel
+example : column "EMA_2" (pairRun srcSMA depEMA {} none demo [])
+    = some [(true, false), (true, false), (true, true), (true, true)] := by decide +kernel
+
+/-- source: `MACD(2, 3, 2)` (dict-valued); dependent: `SMA(period=2, input_value="MACD_2_3_2.MACD")` -/
+def srcMACD : Ind Int := mkTop (.macd 2 3 2 "close") "MACD_2_3_2" 4
+def depSMA : Ind Int := mkTop (.sma 2 "MACD_2_3_2.MACD") "SMA_2" 4
+
+example : ChainSource (F := Int) "MACD_2_3_2" (.macd 2 3 2 "close") :=
+  .macd 2 3 2 "close" (by decide) (by decide) (by decide)
+    ⟨by decide, by decide, by decide, by decide, by decide, by decide, by decide, by decide, by decide,
+      by decide⟩ (by decide)
+
+example : InputOf "MACD_2_3_2" "MACD_2_3_2.MACD" := Or.inr ⟨"MACD", by decide⟩
+
+/-- the hypotheses of `C01_chain_covered` hold (any timeframe) … -/
+example (tf : Option Int) (htf : ∀ t, tf = some t → 0 < t) (fill : Bool) (tfn : Option String)
+    (init : List (Candle Int)) (chunks : List (List (Candle Int)))
+    (hraw : RawTf (init ++ chunks.flatten)) (H : Hexital Int)
+    (hlive : pairRun srcMACD depSMA { tf := tf, fill := fill && tf.isSome } tfn init chunks = .ok H) :
+    ∃ Hb, pairRun srcMACD depSMA { tf := tf, fill := fill && tf.isSome } tfn (init ++ chunks.flatten) [] = .ok Hb ∧
+      Hb.managers = H.managers :=
+  C01_chain_covered tf htf fill
+    (.macd 2 3 2 "close" (by decide) (by decide) (by decide)
+      ⟨by decide, by decide, by decide, by decide, by decide, by decide, by decide, by decide, by decide,
+        by decide⟩ (by decide)) 4
+    (.sma 2 (by decide)) "SMA_2" 4 (by decide) "MACD_2_3_2" (Or.inr ⟨"MACD", by decide⟩) (by decide)
+    (by decide) tfn init chunks hraw H hlive
+
+/-- … the live run returns; the MACD line exists from index 2 (slow EMA), so the dependent SMA_2 over it
+has its first reading at index 3 -/
+example : column "SMA_2" (pairRun srcMACD depSMA {} none [] [demo.take 1, demo.drop 1])
+    = some [(true, false), (true, false), (true, false), (true, true)] := by decide +kernel
+example : column "MACD_2_3_2" (pairRun srcMACD depSMA {} none [] [demo.take 1, demo.drop 1])
+    = some [(true, true), (true, true), (true, true), (true, true)] := by decide +kernel
+
+/-- a chain of three: `SMA_2` over `close`, `EMA_2` over `SMA_2`, `ROC` (period 1) over `EMA_2` -/
+def thirdROC : Ind Int := mkTop (.roc 1 "EMA_2") "ROC" 4
+
+def demoChain : ChainComps [] [srcSMA, depEMA, thirdROC] :=
+  .cons [] srcSMA depEMA [thirdROC]
+    (srcLeaf (.sma 2 (by decide)) "SMA_2" 4 (by decide) (by decide))
+    ((srcLeaf_reads (F := Int) (.sma 2 (by decide)) "SMA_2" 4 (by decide) (by decide)).mono (by decide))
+    (by decide)
+    (.cons _ depEMA thirdROC []
+      (depComp (.ema 2 (.int 2) (by decide)) "EMA_2" 4 (by decide) "SMA_2" (Or.inl ⟨rfl, by decide⟩) (by decide))
+      ((depComp_reads _ _ _ _ _ _ _).mono (by decide))
+      (by decide)
+      (.single _ thirdROC
+        (depComp (.roc 1 (by decide)) "ROC" 4 (by decide) "EMA_2" (Or.inl ⟨rfl, by decide⟩) (by decide))
+        ((depComp_reads _ _ _ _ _ _ _).mono (by decide))))
+
+example (init : List (Candle Int)) (chunks : List (List (Candle Int)))
+    (hp : ∀ c ∈ init ++ chunks.flatten, Plain c) (H : Hexital Int)
+    (hlive : chainRun [srcSMA, depEMA, thirdROC] {} none init chunks = .ok H) :
+    ∃ Hb, chainRun [srcSMA, depEMA, thirdROC] {} none (init ++ chunks.flatten) [] = .ok Hb ∧
+      Hb.managers = H.managers := by
+  obtain ⟨Hb, _, hb, hm, _⟩ := chain_live_eq_batch demoChain (MgrSpec.base Int) none init chunks hp H hlive
+  exact ⟨Hb, hb, hm⟩
+
+/-- the live run returns; the third member's first reading comes at index 3 -/
+example : column "ROC" (chainRun [srcSMA, depEMA, thirdROC] {} none [] [demo.take 2, demo.drop 2])
+    = some [(true, false), (true, false), (true, false), (true, true)] := by decide +kernel
+
+end Hex.Chain.Demo
+
+#print axioms Hex.Chain.pair_live_eq_batch
+#print axioms Hex.Chain.C01_chain
+#print axioms Hex.Chain.C01_chain_covered
+#print axioms Hex.Chain.pair_batch_iff
+#print axioms Hex.Chain.C01_chain_base_appends
+#print axioms Hex.Chain.chain_live_eq_batch
